@@ -428,6 +428,59 @@ theorem normalizeText_append_hws (a t : Bytes) (ht : ∀ x ∈ t, isHws x = true
   rw [hl]
   simp [rstrip_append_ws _ _ (hws_ws ht)]
 
+theorem trimLines_snoc_empty (l : List Bytes) : trimLines (l ++ [[]]) = trimLines l := by
+  unfold trimLines
+  rw [List.dropWhile_append]
+  split
+  · rename_i h
+    have : l.dropWhile List.isEmpty = [] := by simpa using h
+    simp [this]
+  · simp
+
+/-- **what `_process_output` returns without prompt stripping, for ANY buffer** (return char `\n`):
+    every line right-trimmed, leading and trailing empty lines dropped -/
+theorem processOutput_eq_normalize (cfg : Cfg) (hret : cfg.ret = [NL]) (b : Bytes) :
+    processOutput cfg b false = normalizeText b := by
+  unfold processOutput normalizeText
+  simp only [Bool.false_eq_true, ↓reduceIte, hret]
+  have hnl : ∀ l ∈ (splitlines b).map rstrip, NL ∉ l := by
+    intro l hl
+    obtain ⟨a, ha, rfl⟩ := List.mem_map.mp hl
+    have : a ∈ splitNL b := by
+      unfold splitlines at ha
+      simp only at ha
+      split at ha
+      · exact (List.dropLast_prefix _).subset ha
+      · exact ha
+    exact rstrip_no_nl (splitNL_no_nl _ a this)
+  have htr : ∀ l ∈ (splitlines b).map rstrip, rstrip l = l := by
+    intro l hl
+    obtain ⟨a, _, rfl⟩ := List.mem_map.mp hl
+    exact rstrip_idem a
+  rw [lstrip_joinNL _ hnl, rstrip_joinNL _ (dropWhile_isEmpty_trimmed _ htr)]
+  show joinNL (trimLines ((splitlines b).map rstrip)) = _
+  congr 1
+  unfold splitlines
+  simp only
+  split
+  · rename_i h
+    have h' : (splitNL b).getLast? = some [] := by simpa using h
+    obtain ⟨ys, hys⟩ := List.getLast?_eq_some_iff.mp h'
+    rw [hys]
+    simp only [List.dropLast_concat, List.map_append, List.map_cons, List.map_nil]
+    have : rstrip ([] : Bytes) = [] := rfl
+    rw [this, trimLines_snoc_empty]
+  · rfl
+
+theorem lstrip_append_hws_normalize (a t : Bytes) (ht : ∀ x ∈ t, isHws x = true) :
+    normalizeText ((a ++ t).dropWhile isWs) = normalizeText (a.dropWhile isWs) := by
+  rw [List.dropWhile_append]
+  split
+  · rename_i h
+    have h' : a.dropWhile isWs = [] := by simpa using h
+    rw [h', dropWhile_all t (hws_ws ht)]
+  · exact normalizeText_append_hws _ _ ht
+
 theorem consumed_ne_nil (complete : List Bytes) (p : Ev × Step) (ps : List (Ev × Step)) :
     consumed complete (p :: ps) ≠ [] := by
   unfold consumed; split <;> simp
